@@ -116,7 +116,7 @@ def c20_3(cx):
 CUR = r"^zalsa::Zalsa::current_revision\(\$2\)$"
 
 
-@ob("C20.4", ["C20", "C12"], also=["C14", "C15"], nec="a provisional fixpoint result created before a cancelling write (same revision) or in an older revision that is reused afterwards returns a value computed for the old state", kind="ONLYIF")
+@ob("C20.4", ["C20", "C12", "C14", "C15", "C13"], also=["C14", "C15"], nec="a provisional fixpoint result created before a cancelling write (same revision) or in an older revision that is reused afterwards returns a value computed for the old state", kind="ONLYIF")
 def c20_4(cx):
     """fetch_cold_cycle: each of the three decisions that look at an existing memo requires verified_at == current_revision and memo cancellation_count == runtime cancellation_count (poisoned => throw additionally needs value None and provisional; reuse additionally needs value Some and the key among its cycle heads; iteration carry-over needs value Some). previous_iteration returns None on an epoch mismatch and execute_maybe_iterate then forgets the old memo; Runtime::new_revision resets the epoch; the poison guard stamps the current epoch."""
     b = cx.fn(r"^function::fetch::<impl function::IngredientImpl<C>>::fetch_cold_cycle$")
@@ -128,7 +128,7 @@ def c20_4(cx):
     prov = CallIs(r"MemoHeader::may_be_provisional$", True, desc="memo.may_be_provisional()")
     th = cx.one_call(b, r"^cancelled::Cancelled::throw$", "PropagatedPanic throw")
     # a head poisoned by a panic of an EARLIER revision must not keep throwing once its inputs changed (C14/C15: the database stays usable)
-    with cx.only("C20", "C12", "C14", "C15"):
+    with cx.only("C20", "C12", "C14", "C15", "C13"):
         for l in (none, prov, va, cc):
             cx.only_if(b, th, l, "a poisoned memo propagates the panic only if %r" % l)
     ret = cx.some_calls(b, r"^function::IngredientImpl::<C>::extend_memo_lifetime$", 1, "return of the last provisional memo")
